@@ -78,7 +78,7 @@ pub fn spec(id: &str) -> Option<PropSpec> {
                 cs(&THRESH, "subsets", 84, 84, true),
                 cs(&THRESH, "large", 10, 120, false),
                 cs(&THRESH, "extremes", 104, 208, true),
-                cs(&THRESH, "dealer-shapes", 20, 60, true),
+                cs(&THRESH, "dealer-shapes", 28, 84, true),
                 cs(&THRESH, "params", 2, 4, false),
                 cs(&CONC, "conc-thresh", 100, 1000, false),
             ],
